@@ -258,6 +258,17 @@ def r_replicated_rows(A, ctx, scope, rule="R-RED-REPL"):
                  ("intercept_update_step",
                   L.call_function(wq.find_method("intercept_update_step"), [y, Xw], self_obj=wobj),
                   L.call_function(q.find_method("intercept_update_step"), [yr, Xrw], self_obj=qobj))]
+        # accessors w.r.t. the linear predictor, compared through X^T (the replicated design has
+        # one more row)
+        Xt, Xrt = Mat(Vec(c) for c in zip(*X)), Mat(Vec(c) for c in zip(*Xr))
+        for acc in ("raw_grad", "raw_hessian"):
+            mw, mq = wq.find_method(acc), q.find_method(acc)
+            if mw is None or mq is None:
+                continue
+            a = L.dot(Xt, Vec(L.call_function(mw, [y, Xw], self_obj=wobj)))
+            b = L.dot(Xrt, Vec(L.call_function(mq, [yr, Xrw], self_obj=qobj)))
+            for j in range(2):
+                pairs.append((f"{acc}", a[j], b[j]))
         lw = L.call_function(wq.find_method("get_lipschitz"), [X, y], self_obj=wobj)
         lq = L.call_function(q.find_method("get_lipschitz"), [Xr, yr], self_obj=qobj)
         for j in range(2):
